@@ -520,17 +520,92 @@ def _literal_items(M, fn, it: ast.AST, top=None):
     elif isinstance(node, ast.Call) and isinstance(node.func, ast.Name) and node.func.id == "dict" and not node.args and all(k.arg for k in node.keywords):
         pairs = [(ast.Constant(value=k.arg), k.value) for k in node.keywords]
     elif isinstance(node, (ast.Tuple, ast.List)) and mode in ("values", "iter") and not isinstance(it, ast.Call):
-        return [("v", e) for e in node.elts] if len(node.elts) <= 12 else None
+        return [("v", e) for e in node.elts] if len(node.elts) <= 32 else None
     elif isinstance(node, ast.Call) and isinstance(node.func, ast.Name) and node.func.id in ("tuple", "list") and len(node.args) == 1 and \
             isinstance(node.args[0], (ast.Tuple, ast.List)) and mode in ("values", "iter"):
-        return [("v", e) for e in node.args[0].elts] if len(node.args[0].elts) <= 12 else None
-    if pairs is None or len(pairs) > 12:
+        return [("v", e) for e in node.args[0].elts] if len(node.args[0].elts) <= 32 else None
+    if pairs is None or len(pairs) > 32:
         return None
     if mode == "items":
         return [("kv", k, v) for k, v in pairs]
     if mode in ("keys", "iter"):
         return [("v", k) for k, v in pairs]
     return [("v", v) for k, v in pairs]
+
+
+class _UnrollComps(ast.NodeTransformer):
+    """[E(x) for x in TABLE] over a literal table (a display, a module- or class-level constant) is the display [E(t1), E(t2), …];
+    string methods applied to constants are folded ("title_translit".replace("_", "").upper() is "TITLETRANSLIT"), so that a tag
+    derived from a field name reads like the literal tag"""
+
+    def __init__(self, M, fn, top):
+        self.M, self.fn, self.top = M, fn, top
+
+    def visit_FunctionDef(self, n):
+        return n if n is not self.top else self.generic_visit(n)
+
+    def _comp(self, n):
+        n = self.generic_visit(n)
+        if len(n.generators) != 1 or n.generators[0].ifs or n.generators[0].is_async:
+            return n
+        g = n.generators[0]
+        items = _literal_items(self.M, self.fn, g.iter, self.top)
+        if not items:
+            return n
+        elts = []
+        for itm in items:
+            if itm[0] == "kv":
+                if not (isinstance(g.target, ast.Tuple) and len(g.target.elts) == 2 and all(isinstance(t, ast.Name) for t in g.target.elts)):
+                    return n
+                mp = {g.target.elts[0].id: itm[1], g.target.elts[1].id: itm[2]}
+            elif isinstance(g.target, ast.Name):
+                mp = {g.target.id: itm[1]}
+            elif isinstance(g.target, ast.Tuple) and isinstance(itm[1], (ast.Tuple, ast.List)) and len(itm[1].elts) == len(g.target.elts) and \
+                    all(isinstance(t, ast.Name) for t in g.target.elts):
+                mp = {t.id: v for t, v in zip(g.target.elts, itm[1].elts)}
+            else:
+                return n
+            if not all(isinstance(v, (ast.Constant, ast.Name, ast.Attribute)) for v in mp.values()):
+                return n
+            elts.append(_FoldStr().visit(_Rename(mp).visit(copy.deepcopy(n.elt))))
+        return ast.fix_missing_locations(ast.copy_location(ast.List(elts=elts, ctx=ast.Load()), n))
+    visit_ListComp = _comp
+
+    def visit_Starred(self, n):
+        n = self.generic_visit(n)
+        if isinstance(n.value, ast.GeneratorExp):
+            r = self._comp(n.value)
+            if isinstance(r, ast.List):
+                n.value = r
+        return n
+
+
+class _FoldStr(ast.NodeTransformer):
+    SAFE = {"replace", "upper", "lower", "strip", "lstrip", "rstrip", "title", "capitalize", "removeprefix", "removesuffix", "swapcase", "casefold"}
+
+    def visit_Call(self, n):
+        n = self.generic_visit(n)
+        if isinstance(n.func, ast.Attribute) and n.func.attr in self.SAFE and isinstance(n.func.value, ast.Constant) and isinstance(n.func.value.value, str) and \
+                not n.keywords and all(isinstance(a, ast.Constant) and isinstance(a.value, (str, int)) for a in n.args):
+            try:
+                return ast.copy_location(ast.Constant(value=getattr(n.func.value.value, n.func.attr)(*[a.value for a in n.args])), n)
+            except Exception:
+                return n
+        return n
+
+    def visit_JoinedStr(self, n):
+        n = self.generic_visit(n)
+        vals = []
+        for v in n.values:
+            if isinstance(v, ast.FormattedValue) and v.conversion == -1 and v.format_spec is None and isinstance(v.value, ast.Constant) and \
+                    isinstance(v.value.value, str):
+                v = ast.Constant(value=v.value.value)
+            if isinstance(v, ast.Constant) and vals and isinstance(vals[-1], ast.Constant):
+                vals[-1] = ast.Constant(value=str(vals[-1].value) + str(v.value))
+            else:
+                vals.append(v)
+        n.values = vals
+        return n
 
 
 class _AttrCalls(ast.NodeTransformer):
@@ -1514,6 +1589,51 @@ def string_expr(fn_node: ast.FunctionDef, e: ast.AST, _depth: int = 0) -> Option
     return None
 
 
+def _cond_iterables(node: ast.FunctionDef) -> bool:
+    """`for v in (A if c else ())` — directly or through a local bound once and used only there — is `if c: for v in A`: a loop over
+    nothing is no loop"""
+    changed = False
+    for block in _blocks(node):
+        for i, st in enumerate(block):
+            if not (isinstance(st, ast.For) and not st.orelse):
+                continue
+            it = st.iter
+            drop = None
+            if isinstance(it, ast.Name):
+                defs = [(b2, k) for b2 in _blocks(node) for k, x in enumerate(b2) if isinstance(x, ast.Assign) and len(x.targets) == 1 and
+                        isinstance(x.targets[0], ast.Name) and x.targets[0].id == it.id]
+                uses = [n for n in ast.walk(node) if isinstance(n, ast.Name) and n.id == it.id and isinstance(n.ctx, ast.Load)]
+                if len(defs) == 1 and len(uses) == 1 and defs[0][0] is block and defs[0][1] < i:
+                    drop = defs[0]
+                    it = block[defs[0][1]].value
+            if not isinstance(it, ast.IfExp):
+                continue
+            empty = lambda e: isinstance(e, (ast.Tuple, ast.List)) and not e.elts      # noqa: E731
+            if empty(it.orelse) and not empty(it.body):
+                test, seq = it.test, it.body
+            elif empty(it.body) and not empty(it.orelse):
+                test, seq = ast.UnaryOp(op=ast.Not(), operand=it.test), it.orelse
+            else:
+                continue
+            if drop is not None:
+                # the condition is evaluated where the local was bound: nothing in between may re-bind what it reads
+                names = {n.id for n in ast.walk(test) if isinstance(n, ast.Name)}
+                between = block[drop[1] + 1:i]
+                if any(isinstance(n, ast.Name) and n.id in names and isinstance(n.ctx, ast.Store) for b_ in between for n in ast.walk(b_)):
+                    continue
+            st.iter = seq
+            guard = ast.copy_location(ast.If(test=test, body=[st], orelse=[]), st)
+            block[i] = guard
+            if drop is not None:
+                del block[drop[1]]
+            ast.fix_missing_locations(node)
+            changed = True
+            break
+        if changed:
+            break
+    return changed
+
+
 def _zip_stack_to_cursor(node: ast.FunctionDef) -> bool:
     """`S = list(zip(A, B))` used only as a stack that is read at its top and popped — `S[-1][i]`, `x, y = S[-1]`, `S.pop()` as a
     statement — is a cursor `k = -1` into the parallel tables: `S[-1][0]` is `A[k]`, `S[-1][1]` is `B[k]`, `S.pop()` is `k -= 1`
@@ -1820,11 +1940,15 @@ def normalise(M, fn, subst: bool = False, guards: bool = False, keep=(), comps: 
         node.body = _unroll_block(M, fn, node.body, changed, node)
         node.body = _expand_dispatch(M, fn, node, node.body, changed)
         node.body = _fold_const_ifs(node.body)
+        node = _UnrollComps(M, fn, node).generic_visit(node)
         node = _AttrCalls().generic_visit(node) if True else node
         if not changed:
             break
     for _ in range(3):
         if not _fuse_tuple_buffers(node):
+            break
+    for _ in range(4):
+        if not _cond_iterables(node):
             break
     for _ in range(3):
         if not _zip_stack_to_cursor(node):
